@@ -57,7 +57,7 @@ try:
         dst = os.path.join(VERIF, "seeded", sid)
         os.makedirs(dst, exist_ok=True)
         for f in ("patch.diff", "demo.py", "notes.md"):
-            if os.path.exists(os.path.join(seed, f)):
+            if os.path.exists(os.path.join(seed, f)) and os.path.abspath(seed) != os.path.abspath(dst):
                 shutil.copy(os.path.join(seed, f), dst)
         meta["needs_to_manifest"] = open(os.path.join(seed, "notes.md")).read()[:1500] if os.path.exists(os.path.join(seed, "notes.md")) else ""
         meta["what_was_run"] = ["patch -p1 on a scratch copy of /repo's working tree", "tools/baseline.py <scratch> (the 180 stable tests)",
